@@ -100,6 +100,25 @@ def stripWs (s : Cps) : Cps := s.filter (fun c => !isWs c)
 /-- `s.strip()` -/
 def strip (s : Cps) : Cps := ((s.dropWhile isWs).reverse.dropWhile isWs).reverse
 
+/-- `s.lstrip()` -/
+def lstrip (s : Cps) : Cps := s.dropWhile isWs
+
+/-- `s.rstrip()` -/
+def rstrip (s : Cps) : Cps := (s.reverse.dropWhile isWs).reverse
+
+/-- `len(s) - len(s.rstrip('\\'))` -/
+def trailingBackslashes (s : Cps) : Nat := (s.reverse.takeWhile (· == 92)).length
+
+/-- end of `do_css_CSSVariablesDeclaration` since 1bbf955 (`serialize.py:913-919`): strip both ends, but when what
+is left ends in an odd run of backslashes and something was stripped behind it, the first stripped character is
+the escaped blank that ends the last value and is put back -/
+def stripKeepEsc (s : Cps) : Cps :=
+  let text := lstrip s
+  let stripped := rstrip text
+  if trailingBackslashes stripped % 2 == 1 && stripped.length < text.length then
+    stripped ++ (text.drop stripped.length).take 1
+  else stripped
+
 /-- `s.endswith(' ')` -/
 def endsSp (s : Cps) : Bool := s.getLast? == some 32
 
@@ -145,7 +164,8 @@ def pyString (v : Cps) : Cps :=
 
 /-- `_match_forbidden_in_uri` (`helper.py:104`): `.*?[\(\)\s\;,'"]` matches iff some character is forbidden
 (a line break, which `.` does not cross, is itself `\s`) -/
-def uriForbidden (c : Nat) : Bool := c == 40 || c == 41 || isWs c || c == 59 || c == 44 || c == 39 || c == 34
+def uriForbidden (c : Nat) : Bool :=
+  c == 40 || c == 41 || isWs c || c == 59 || c == 44 || c == 39 || c == 34 || c ≤ 8 || (14 ≤ c && c ≤ 31) || c == 127
 
 /-- `helper.uri` (`helper.py:107-115`) -/
 def pyUri (v : Cps) : Cps :=
